@@ -117,7 +117,8 @@ def work_histories(seed, n, ids):
     from vtlengine import prettify
     part = core.Part()
     scripts = [c["script"] for c in corpus.harvest() if c["id"] in ids and len(c["script"]) < 1500][:60]
-    broken = [s[: max(1, len(s) // 2)] for s in scripts[:20]] + ["A := ;", "A := DS_1 +", "/* open", 'A := "x;', "A := DS_1 [calc ];", ")", ""]
+    broken = [s[: max(1, len(s) // 2)] for s in scripts[:20]] + ["A := ;", "A := DS_1 +", "/* open", 'A := "x;', "A := DS_1 [calc ];", ")", "",
+              "A := DS_1;\x0cB := ;", "A := DS_1;\rB := ;\r", "R := " + "(" * 2500 + "DS_1" + ")" * 2500 + ";", "R := DS_1" + " + DS_1" * 700 + ";"]
     pool = scripts + broken
     first = {}
 
